@@ -47,7 +47,10 @@ def native(S, lines):
 def c_ext_ok(t):
     if t[0] in ABI_LEAVES:
         return True
-    if t[0] in ('Arraylike', 'Pointer', 'View'):
+    if t[0] == 'Arraylike':
+        # the elements of an array need a size: an array view of array views has no ABI representation
+        return t[1][0] != 'Arraylike' and c_ext_ok(t[1])
+    if t[0] in ('Pointer', 'View'):
         return c_ext_ok(t[1])
     return False
 
@@ -63,8 +66,7 @@ def c_ext_map(t):
 def c_fix(t, ctx, ext):
     """Expected answer of `fix <ctx> <ext> <type>`."""
     if ext:
-        inner = t[1] if t[0] == 'Arraylike' else t
-        if not c_ext_ok(inner):
+        if not c_ext_ok(t):
             return 'err358'
         if t[0] == 'Arraylike':
             return 'ok ' + vtlib.wire(('View', ('EndlessArray', c_ext_map(t[1]))))
@@ -175,7 +177,8 @@ def ext_ok(t):
     Tt = vtref.T(t)
     c = Tt.child()
     inner = ext_ok(c.v) if c is not None else z3.BoolVal(False)
-    return zor(Tt.is_(*ABI_LEAVES), zand(Tt.is_('Arraylike', 'Pointer', 'View'), inner))
+    nested = c.is_('Arraylike') if c is not None else z3.BoolVal(False)
+    return zor(Tt.is_(*ABI_LEAVES), zand(Tt.is_('Pointer', 'View'), inner), zand(Tt.is_('Arraylike'), inner, znot(nested)))
 
 
 def within_depth(t, d):
@@ -268,7 +271,7 @@ def extern_clause(S, tier):
     e358 = zand(znot(is_ok), err.discr == bv(edef.variant_by_name('TypeNotAllowedInExtern')[1], 64)) if err is not None else z3.BoolVal(False)
     child = Tt.child()
     top_arraylike = Tt.is_('Arraylike')
-    ok_ext = zite(top_arraylike, ext_ok(child.v) if child is not None else z3.BoolVal(False), ext_ok(t))
+    ok_ext = ext_ok(t)
     # expected result of the external path
     if rt is not None:
         To = vtref.T(rt)
@@ -287,6 +290,13 @@ def extern_clause(S, tier):
                                rel_same(rt, t))))
     else:
         ext_result = plain = z3.BoolVal(False)
+    # the callers assert that the fixed type is well-formed before they report E351/E354: the real is_wellformed on the result
+    wf_out = z3.BoolVal(True)
+    if rt is not None:
+        try:
+            _gw, wf_out = ex.call_function(S.fn('is_wellformed'), [ValRef(rt)], z3.BoolVal(True), State())
+        except (Unsupported, PathAbort) as e:
+            raise Inconclusive('cannot encode is_wellformed on the fixed type: %s' % e)
     pending, unconfirmed = [], []
 
     def handle(q, qname, text, kind, m):
@@ -298,6 +308,18 @@ def extern_clause(S, tier):
             return
         if kind == 'bounds':
             unconfirmed.append('%s: the bounded models are exceeded' % qname)
+            return
+        if kind == 'wf':
+            ct = vtlib.from_model(m, t, S.kinds)
+            cx = cdef.variant_by_discr(m.eval(ctx.discr, model_completion=True).as_long())[0]
+            ce = z3.is_true(m.eval(is_ext, model_completion=True))
+            line = 'fixwf %d %d %s' % (cx, 1 if ce else 0, vtlib.wire(ct))
+            got = native(S, [line])[0]
+            q['counterexample'] = {'request': line, 'native': got}
+            if not got.endswith(' illformed'):
+                unconfirmed.append('counterexample of %s does not reproduce natively: %s -> %s' % (qname, line, got))
+                return
+            pending.append((qname, text, line, got, ct))
             return
         ct = vtlib.from_model(m, t, S.kinds)
         cx = cdef.variant_by_discr(m.eval(ctx.discr, model_completion=True).as_long())[0]
@@ -313,7 +335,7 @@ def extern_clause(S, tier):
 
     base = zand(pre, in_model)
     e358_text = ('behind `extern` a type is accepted iff it is built from pointers, views and array views over i8..i64, u8..u64, usize and '
-                 'char8 (E358 otherwise)')
+                 'char8, with no array view directly inside an array view (E358 otherwise)')
     items = [
         ('extern:total', zand(base, zor(znot(g), *panics)), 'fix_type_for_flags returns without panic for every well-formed type', 'fix'),
         ('extern:e358-iff', zand(base, g, is_ext, is_ok != ok_ext), e358_text, 'fix'),
@@ -324,6 +346,8 @@ def extern_clause(S, tier):
         ('extern:plain-result', zand(base, g, znot(is_ext), znot(plain)),
          'without `extern`: `[]T` is a slice, `&[]T` a slice pointer, a struct parameter or return value a view of the struct, '
          'everything else unchanged', 'fix'),
+        ('extern:result-wellformed', zand(base, g, is_ok, znot(wf_out)),
+         'the fixed type of a well-formed type is well-formed (the callers assert it before reporting E351/E354)', 'wf'),
         ('extern:witness-accepted', zand(base, g, is_ext, ok_ext, top_arraylike), 'witness: an accepted extern array view', 'witness'),
         ('extern:witness-rejected', zand(base, g, is_ext, znot(ok_ext), Tt.is_('Pointer')), 'witness: a rejected extern pointer type', 'witness'),
         ('extern:model-bounds', zand(pre, znot(in_model)), 'the models suffice within the bound', 'bounds'),
@@ -384,7 +408,7 @@ def extern_clause(S, tier):
 
 
 def align_clause(S, tier):
-    M = 3 if tier == 'quick' else 5
+    M = int(os.environ.get('ALIGN_M', 4 if tier == 'quick' else 5))
     ex = Executor(S.dump, S.defs, loop_bound=M + 2)
     ex.abstract_types = {'Location': 8, 'String': 8}
     ex.havoc_patterns = [r'HashMap::<u32, (?:typer::)?Structure>::insert$', r'::to_vec$']
@@ -443,6 +467,18 @@ def align_clause(S, tier):
     mf = [f for f, _ in mdef.fields]
     rdef = S.defs.find_enum('Result')
     mtypes = [ex.fresh_value(VT, 'am%d' % i, depth=1) for i in range(M)]
+    # the size of a member that is itself a word is one of 1, 2, 4, 8, 16 (word8 .. word128): a selector instead of a free
+    # usize, so that sizes and alignments are if-then-else trees of constants (same domain, far cheaper arithmetic)
+    for i, mt in enumerate(mtypes):
+        if 'Word' in mt.variants:
+            names_w = [f for f, _ in mt.edef.variant_by_name('Word')[2]]
+            k = names_w.index('size_in_bytes')
+            sel = z3.BitVec('am%d.sizeclass' % i, 3)
+            ex.assume(z3.ULE(sel, bv(4, 3)))
+            size = z3.If(sel == 0, bv(1, 64), z3.If(sel == 1, bv(2, 64), z3.If(sel == 2, bv(4, 64), z3.If(sel == 3, bv(8, 64), bv(16, 64)))))
+            fs = list(mt.variants['Word'])
+            fs[k] = size
+            mt.variants['Word'] = tuple(fs)
     members = []
     for i, mt in enumerate(mtypes):
         fs = []
@@ -486,7 +522,8 @@ def align_clause(S, tier):
     member_ok = [zand(x.is_('Word', *SIZES), z3.Implies(x.is_('Word'), zor(*[ws == bv(k, 64) for k in (1, 2, 4, 8, 16)])))
                  for x, ws in zip(Tm, wsize)]
     declared = Ts.field('Word', 1)
-    pre = zand(Ts.is_('Struct', 'Word'), z3.ULE(declared, bv(1 << 20, 64)),
+    # declared sizes are those of word8 .. word128
+    pre = zand(Ts.is_('Struct', 'Word'), zor(*[declared == bv(k, 64) for k in (1, 2, 4, 8, 16)]),
                *[z3.Implies(a, ok) for a, ok in zip(act, member_ok)])
 
     def al_of(sz):
@@ -500,6 +537,9 @@ def align_clause(S, tier):
         total = zite(a, round_up(total, al) + sz, total)
         biggest = zite(zand(a, z3.UGT(al, biggest)), al, biggest)
     need = round_up(total, biggest)
+    plain_sum = bv(0, 64)
+    for a, sz in zip(act, sizes):
+        plain_sum = plain_sum + zite(a, sz, bv(0, 64))
     fits = z3.ULE(need, declared)
     is_ok = res.discr == bv(0, 64)
     rt = res.variants['Ok'][0] if 'Ok' in res.variants else None
@@ -551,8 +591,8 @@ def align_clause(S, tier):
         ('word:type-unchanged', zand(base, g, is_ok, znot(same1(rt, stype))) if rt is not None else z3.BoolVal(False),
          'an accepted structure or word keeps its type', 'align'),
         ('word:witness-fits', zand(base, g, Ts.is_('Word'), fits, n == bv(M, 64), need == declared), 'witness: a word that fits exactly', 'witness'),
-        ('word:witness-padding', zand(base, g, Ts.is_('Word'), znot(fits), z3.ULE(total, declared)),
-         'witness: a word that is too small only because of padding', 'witness'),
+        ('word:witness-padding', zand(base, g, Ts.is_('Word'), znot(fits), z3.ULE(plain_sum, declared)),
+         'witness: a word whose member sizes add up to no more than the declared size but which does not fit because of padding', 'witness'),
         ('word:model-bounds', zand(pre, znot(in_model)), 'the loop unrolling suffices for every member list within the bound', 'bounds'),
     ]
     _solve(S, ex, items, handle, parallel=True)
@@ -565,7 +605,7 @@ def align_clause(S, tier):
     for _ in range(120 if tier == 'quick' else 500):
         k = rng.randint(0, M)
         ms = [((rng.choice(leaves),) if rng.random() < 0.8 else ('Word', rng.randint(1, 9), rng.choice([1, 2, 4, 8, 16]))) for _ in range(k)]
-        sv = ('Word', rng.randint(1, 9), rng.choice([1, 2, 4, 8, 16, 24, 32])) if rng.random() < 0.8 else ('Struct', rng.randint(1, 9))
+        sv = ('Word', rng.randint(1, 9), rng.choice([1, 2, 4, 8, 16])) if rng.random() < 0.8 else ('Struct', rng.randint(1, 9))
         reqs.append((sv, ms))
     lines = [('align %s %s' % (vtlib.wire(sv), ' '.join(vtlib.wire(x) for x in ms))).strip() for sv, ms in reqs]
     got = native(S, lines)
